@@ -55,8 +55,11 @@ Definition judge (t : tree) : option (list Z) :=
       end
     else
       let expected := match kind, rest with
-                      | 6, [A i] => crossover_gene a b (Z.to_nat i)
-                      | 7, [A lo; A hi] => if (lo <? 0) || (hi <? 0) then None else crossover_segment a b (Z.to_nat lo) (Z.to_nat hi)
+                      (* (an index beyond every genome the generators build is out of range whatever the genomes are: it is
+                         not turned into a unary number) *)
+                      | 6, [A i] => if (i <? 0) || (100000 <? i) then None else crossover_gene a b (Z.to_nat i)
+                      | 7, [A lo; A hi] => if (lo <? 0) || (hi <? 0) || (100000 <? lo) || (100000 <? hi) then None
+                                           else crossover_segment a b (Z.to_nat lo) (Z.to_nat hi)
                       | _, _ => None
                       end in
       match expected, o with
@@ -76,8 +79,8 @@ Definition show (t : tree) : option (list (list Z)) :=
     olet a := tlist tZ a in olet b := tlist tZ b in
     if kind <? 6 then (if kind <? 3 then two_point_support a b else uniform_support a b)
     else match kind, rest with
-         | 6, [A i] => match crossover_gene a b (Z.to_nat i) with Some (x, y) => Some [x; y] | None => Some [[-1]] end
-         | 7, [A lo; A hi] => match crossover_segment a b (Z.to_nat lo) (Z.to_nat hi) with Some (x, y) => Some [x; y] | None => Some [[-1]] end
+         | 6, [A i] => match (if 100000 <? i then None else crossover_gene a b (Z.to_nat i)) with Some (x, y) => Some [x; y] | None => Some [[-1]] end
+         | 7, [A lo; A hi] => match (if (100000 <? lo) || (100000 <? hi) then None else crossover_segment a b (Z.to_nat lo) (Z.to_nat hi)) with Some (x, y) => Some [x; y] | None => Some [[-1]] end
          | _, _ => None
          end
   | _ => None
